@@ -345,10 +345,12 @@ class Candidate:  # pylint: disable=too-many-instance-attributes
         py_version_score = (
             self.py_version.tag_score if self.py_version is not None else 0
         )
-        try:
-            abi_score = ABI_TAGS.index(self.abi) if self.abi is not None else 0
-        except ValueError:
-            abi_score = 0
+        abi_score = 0
+        if self.abi is not None:
+            abi_score = max(
+                (ABI_TAGS.index(tag) for tag in self.abi.split(".") if tag in ABI_TAGS),
+                default=0,
+            )
 
         plat_score = -1
         for plat in self.platforms:
@@ -524,7 +526,9 @@ def _check_platform_compatibility(py_platforms: Iterable[str]) -> bool:
 
 
 def _check_abi_compatibility(abi: str) -> bool:
-    return abi in ABI_TAGS
+    # The ABI field of a wheel file name is a compressed tag set (PEP 425), like the
+    # python and platform fields.
+    return any(tag == "none" or tag in ABI_TAGS for tag in abi.split("."))
 
 
 class CantUseReason(enum.Enum):
